@@ -1,3 +1,1108 @@
-use crate::common::Params;
-use vq_util::Summary;
-pub fn run(_p: &Params, _sum: &mut Summary) {}
+//! C15 (component part): two `KeySet<K>` instances ("A", "B") joined by a seeded reordering /
+//! duplicating / dropping channel.  `K` is an instrumented 1-RTT key written here: every key
+//! carries its generation, ciphertexts are tagged with (generation, packet number, MAC), a key
+//! only opens packets sealed with its own generation, limits are tiny.  Packets are really
+//! encoded (`Short::encode_packet` through `KeySet::encrypt_packet`), header protected, decoded
+//! (`ProtectedPacket::decode`, `unprotect`) and opened through `KeySet::decrypt_packet`.
+//!
+//! Oracle after every step (RFC 9001 section 6; nothing is taken from the KeySet's state):
+//!  K1  per endpoint and key generation: packets sealed <= confidentiality limit
+//!  K2  a refusal (`AeadLimitReached`) is only legitimate when the generation in use is exhausted
+//!      and the endpoint could not move on (its own update is still unconfirmed); an endpoint
+//!      whose current generation is confirmed must initiate an update instead (6.6)
+//!  K3  generation(pn1) <= generation(pn2) for pn1 < pn2 of one endpoint (6.4); an endpoint never
+//!      seals with a generation older than one it has already opened from the peer (6.2) nor more
+//!      than one ahead of what the peer has confirmed (6.1)
+//!  K4  a genuine packet of the receiver's current receive generation always opens; one of the
+//!      next generation opens unless the receiver is inside the deferral window after an update
+//!      (6.3/6.5: either accepted); one of the previous generation opens while the old keys are
+//!      retained, i.e. until `on_timeout` ran at/after the deadline handed to `decrypt_packet`
+//!      (inside the 1 ms timer-granularity band either is accepted).  Every successful open used
+//!      the key of the packet's own generation (enforced by the key itself)
+//!  K5  `decrypt_packet` announces a key update (`Some(generation)`) exactly when the packet's
+//!      generation is newer than anything opened before, and the announced number is that
+//!      generation
+//!  K6  forged packets never open; every failed open is counted and AEAD_LIMIT_REACHED is returned
+//!      exactly from the failure that makes the count reach the integrity limit on, never earlier
+
+use crate::common::{guarded, panic_sig, ts, Caught, Fail, Params};
+use s2n_codec::{DecoderBufferMut, Encoder, EncoderBuffer};
+use s2n_quic_core::{
+    connection::{self, id::ConnectionInfo, ProcessingError},
+    crypto::{
+        self,
+        application::{limited::Limits, KeySet},
+        packet_protection, scatter, HeaderProtectionMask,
+    },
+    inet::SocketAddress,
+    packet::{
+        encoding::{PacketEncoder, PacketEncodingError},
+        number::{PacketNumber, PacketNumberSpace},
+        short::{Short, SpinBit},
+        ProtectedPacket,
+    },
+    time::timer::Provider as _,
+    varint::VarInt,
+};
+use std::{
+    collections::BTreeMap,
+    sync::{Arc, Mutex},
+};
+use vq_util::{json, mix, prf_fill, Rng, Summary, Violation};
+
+const TAG_LEN: usize = 16;
+const DCID: [u8; 8] = [0xd0, 0xd1, 0xd2, 0xd3, 0xd4, 0xd5, 0xd6, 0xd7];
+const PAYLOAD_LEN: usize = 56;
+
+// ---- instrumented key ---------------------------------------------------------------------
+
+#[derive(Default)]
+struct KeyLog {
+    /// (owner, generation, packet number) of every seal
+    sealed: Vec<(u8, u32, u64)>,
+    /// (owner, generation of the key tried, packet number, opened?)
+    opened: Vec<(u8, u32, u64, bool)>,
+    derivations: u64,
+}
+
+struct TKey {
+    owner: u8,
+    gen: u32,
+    conf_limit: u64,
+    integ_limit: u64,
+    log: Arc<Mutex<KeyLog>>,
+}
+
+fn mac(gen: u32, pn: u64, header: &[u8], body: &[u8]) -> u64 {
+    let mut h = mix(0x5EC2_E7u64 ^ gen as u64, pn);
+    for b in header.iter().chain(body.iter()) {
+        h = (h ^ *b as u64).wrapping_mul(0x100000001b3);
+    }
+    mix(h, gen as u64)
+}
+
+fn keystream(gen: u32, pn: u64, i: usize) -> u8 {
+    (mix(mix(gen as u64, pn), i as u64 >> 3) >> ((i & 7) * 8)) as u8
+}
+
+impl crypto::Key for TKey {
+    fn decrypt(
+        &self,
+        packet_number: u64,
+        header: &[u8],
+        payload: &mut [u8],
+    ) -> Result<(), packet_protection::Error> {
+        let ok = (|| {
+            if payload.len() < TAG_LEN {
+                return false;
+            }
+            let (body, tag) = payload.split_at_mut(payload.len() - TAG_LEN);
+            let g = u32::from_be_bytes(tag[0..4].try_into().unwrap());
+            let p = u32::from_be_bytes(tag[4..8].try_into().unwrap());
+            let m = u64::from_be_bytes(tag[8..16].try_into().unwrap());
+            if g != self.gen || p != packet_number as u32 {
+                return false;
+            }
+            if m != mac(self.gen, packet_number, header, body) {
+                return false;
+            }
+            for (i, b) in body.iter_mut().enumerate() {
+                *b ^= keystream(self.gen, packet_number, i);
+            }
+            true
+        })();
+        self.log
+            .lock()
+            .unwrap()
+            .opened
+            .push((self.owner, self.gen, packet_number, ok));
+        if ok {
+            Ok(())
+        } else {
+            Err(packet_protection::Error::DECRYPT_ERROR)
+        }
+    }
+
+    fn encrypt(
+        &mut self,
+        packet_number: u64,
+        header: &[u8],
+        payload: &mut scatter::Buffer,
+    ) -> Result<(), packet_protection::Error> {
+        let buffer = payload.flatten();
+        let m = {
+            let (body, _) = buffer.split_mut();
+            for (i, b) in body.iter_mut().enumerate() {
+                *b ^= keystream(self.gen, packet_number, i);
+            }
+            mac(self.gen, packet_number, header, body)
+        };
+        buffer.write_slice(&self.gen.to_be_bytes());
+        buffer.write_slice(&(packet_number as u32).to_be_bytes());
+        buffer.write_slice(&m.to_be_bytes());
+        self.log
+            .lock()
+            .unwrap()
+            .sealed
+            .push((self.owner, self.gen, packet_number));
+        Ok(())
+    }
+
+    fn tag_len(&self) -> usize {
+        TAG_LEN
+    }
+    fn aead_confidentiality_limit(&self) -> u64 {
+        self.conf_limit
+    }
+    fn aead_integrity_limit(&self) -> u64 {
+        self.integ_limit
+    }
+    fn cipher_suite(&self) -> crypto::tls::CipherSuite {
+        crypto::tls::CipherSuite::Unknown
+    }
+}
+
+impl crypto::OneRttKey for TKey {
+    fn derive_next_key(&self) -> Self {
+        self.log.lock().unwrap().derivations += 1;
+        TKey {
+            owner: self.owner,
+            gen: self.gen + 1,
+            conf_limit: self.conf_limit,
+            integ_limit: self.integ_limit,
+            log: self.log.clone(),
+        }
+    }
+}
+
+/// header protection that really masks the first byte (key phase bit) and the packet number
+struct THeaderKey;
+
+impl crypto::HeaderKey for THeaderKey {
+    fn opening_header_protection_mask(&self, sample: &[u8]) -> HeaderProtectionMask {
+        [
+            sample[0] ^ 0x5a,
+            sample[1] ^ sample[5],
+            sample[2],
+            sample[3] ^ 0xc3,
+            sample[4],
+        ]
+    }
+    fn opening_sample_len(&self) -> usize {
+        16
+    }
+    fn sealing_header_protection_mask(&self, sample: &[u8]) -> HeaderProtectionMask {
+        self.opening_header_protection_mask(sample)
+    }
+    fn sealing_sample_len(&self) -> usize {
+        16
+    }
+}
+impl crypto::OneRttHeaderKey for THeaderKey {}
+
+// ---- history --------------------------------------------------------------------------------
+
+mod shape {
+    pub const UPDATE: u32 = 1;
+    pub const MANY_UPDATES: u32 = 1 << 1;
+    pub const OLD_GEN_IN_RETENTION: u32 = 1 << 2;
+    pub const OLD_GEN_AFTER_DISCARD: u32 = 1 << 3;
+    pub const NEXT_GEN_IN_DEFERRAL: u32 = 1 << 4;
+    pub const REFUSAL: u32 = 1 << 5;
+    pub const FORGERY: u32 = 1 << 6;
+    pub const INTEGRITY_LIMIT: u32 = 1 << 7;
+    pub const DUPLICATE: u32 = 1 << 8;
+    pub const REORDER: u32 = 1 << 9;
+    pub const DROP: u32 = 1 << 10;
+    pub const BOTH_INITIATE: u32 = 1 << 11;
+    pub const PHASE_FLIP_FORGERY: u32 = 1 << 12;
+    pub const FAR_GEN: u32 = 1 << 13;
+    pub const TIMER: u32 = 1 << 14;
+    pub const POST_LIMIT_GENUINE_ACCEPTED: u32 = 1 << 15;
+}
+
+struct Wire {
+    from: usize,
+    pn: u64,
+    gen: u32,
+    bytes: Vec<u8>,
+    seq: u64,
+}
+
+struct Endpoint {
+    ks: KeySet<TKey>,
+    owner: u8,
+    next_pn: u64,
+    /// largest packet number opened from the peer (packet number expansion basis)
+    largest_rx: Option<u64>,
+    // ---- oracle shadow ----
+    sealed: BTreeMap<u32, u64>,
+    last_gen_sealed: Option<u32>,
+    /// highest generation opened from the peer = current receive generation
+    rx_gen: u32,
+    /// deadline handed to decrypt_packet when rx_gen last advanced (old keys retained until an
+    /// on_timeout at/after it)
+    retain_deadline_us: Option<u64>,
+    /// `Some(true)`: old keys surely gone / next keys surely derived; `None`: inside the 1 ms band
+    timer_state: TimerState,
+    fails: u64,
+    limit_hit: bool,
+}
+
+#[derive(Clone, Copy, PartialEq, Debug)]
+enum TimerState {
+    /// no update yet or derivation done: current+next keys present, no old keys
+    Settled,
+    /// after an update: old keys retained, next keys not derived yet
+    Retaining,
+    /// on_timeout ran inside the granularity band before the deadline: either
+    Unknown,
+}
+
+#[derive(Default)]
+struct Stats {
+    steps: u64,
+    sealed: u64,
+    delivered: u64,
+    opened: u64,
+    dropped: u64,
+    duplicated: u64,
+    reordered: u64,
+    forgeries: u64,
+    updates: u64,
+    old_gen_in_retention: u64,
+    old_gen_after_discard: u64,
+    old_gen_band: u64,
+    next_gen_in_deferral: u64,
+    far_gen: u64,
+    refusals: u64,
+    integrity_closes: u64,
+    timeouts: u64,
+    post_limit_genuine_accepted: u64,
+    suppressed_old_gen: u64,
+    suppressed_sends: u64,
+    max_gen: u32,
+    max_sealed_per_gen: u64,
+    shape: u32,
+}
+
+struct Hist {
+    eps: [Endpoint; 2],
+    log: Arc<Mutex<KeyLog>>,
+    chan: Vec<Wire>,
+    seq: u64,
+    rng: Rng,
+    now_us: u64,
+    pto_us: u64,
+    conf_limit: u64,
+    integ_limit: u64,
+    window: u64,
+    forge_pct: u64,
+    drop_pct: u64,
+    reorder_pct: u64,
+    st: Stats,
+    verbose: bool,
+    trace: Vec<String>,
+    fail: Option<Fail>,
+    done: bool,
+    avoid_known: bool,
+    remote: SocketAddress,
+}
+
+fn pn_obj(v: u64) -> PacketNumber {
+    PacketNumberSpace::ApplicationData.new_packet_number(VarInt::new(v).unwrap())
+}
+
+fn is_aead_limit(e: &ProcessingError) -> bool {
+    match e {
+        ProcessingError::ConnectionError(connection::Error::Transport { code, .. }) => {
+            code.as_u64() == 0xf
+        }
+        _ => false,
+    }
+}
+
+impl Hist {
+    fn new(mut rng: Rng, miri: bool, verbose: bool, avoid_known: bool) -> Self {
+        let conf_limit = if miri {
+            rng.range(6, 12)
+        } else {
+            match rng.below(4) {
+                0 => 40,
+                1 => rng.range(8, 24),
+                _ => rng.range(24, 96),
+            }
+        };
+        let window = match rng.below(4) {
+            0 => 1,
+            1 => conf_limit / 2,
+            _ => rng.range(1, (conf_limit / 2).max(1)),
+        };
+        let integ_limit = if miri {
+            rng.range(2, 5)
+        } else {
+            match rng.below(3) {
+                0 => 12,
+                _ => rng.range(3, 24),
+            }
+        };
+        let log = Arc::new(Mutex::new(KeyLog::default()));
+        let mk = |owner: u8| {
+            let mut limits = Limits::default();
+            limits.key_update_window = window;
+            let key = TKey {
+                owner,
+                gen: 0,
+                conf_limit,
+                integ_limit,
+                log: log.clone(),
+            };
+            Endpoint {
+                ks: KeySet::new(key, limits),
+                owner,
+                next_pn: 0,
+                largest_rx: None,
+                sealed: BTreeMap::new(),
+                last_gen_sealed: None,
+                rx_gen: 0,
+                retain_deadline_us: None,
+                timer_state: TimerState::Settled,
+                fails: 0,
+                limit_hit: false,
+            }
+        };
+        let eps = [mk(0), mk(1)];
+        let forge_pct = match rng.below(4) {
+            0 => 0,
+            1 => 1,
+            2 => 4,
+            _ => rng.range(1, 12),
+        };
+        Hist {
+            eps,
+            log,
+            chan: Vec::new(),
+            seq: 0,
+            pto_us: rng.range(2_000, 120_000),
+            now_us: 1_000_000,
+            conf_limit,
+            integ_limit,
+            window,
+            forge_pct,
+            drop_pct: rng.range(0, 25),
+            reorder_pct: rng.range(0, 60),
+            rng,
+            st: Stats::default(),
+            verbose,
+            trace: Vec::new(),
+            fail: None,
+            done: false,
+            avoid_known,
+            remote: SocketAddress::default(),
+        }
+    }
+
+    fn name(e: usize) -> char {
+        if e == 0 {
+            'A'
+        } else {
+            'B'
+        }
+    }
+
+    fn log(&mut self, s: String) {
+        if self.verbose {
+            eprintln!("[{:>5}] t={} {}", self.st.steps, self.now_us, s);
+        }
+        if self.trace.len() >= 28 {
+            self.trace.remove(0);
+        }
+        self.trace.push(format!("t={} {}", self.now_us, s));
+    }
+
+    fn set_fail(&mut self, sig: &str, what: String) {
+        if self.fail.is_none() {
+            if self.verbose {
+                eprintln!("VIOLATION keys.{sig}: {what}");
+            }
+            self.fail = Some(Fail::new(format!("keys.{sig}"), what));
+        }
+    }
+
+    // ---- seal -------------------------------------------------------------------------
+
+    fn op_send(&mut self, e: usize) {
+        if self.eps[e].limit_hit {
+            return; // a closed connection sends nothing
+        }
+        if self.avoid_known {
+            // steer away from known finding F2 (see README): do not enter the update window of a
+            // generation that the peer has not confirmed yet or that was promoted less than one
+            // retention period ago (the "next" slot still holds the previous key then)
+            let ep = &self.eps[e];
+            if let Some(g) = ep.last_gen_sealed {
+                let used = ep.sealed.get(&g).copied().unwrap_or(0);
+                if (g > ep.rx_gen || ep.timer_state != TimerState::Settled)
+                    && used + self.window >= self.conf_limit
+                {
+                    self.st.suppressed_sends += 1;
+                    return;
+                }
+            }
+        }
+        let pn = self.eps[e].next_pn;
+        // packet number truncation basis: the largest of our packet numbers the peer has opened
+        // (everything opened counts as acknowledged), sometimes lagging
+        let peer_has = self
+            .chan_basis(e)
+            .map(|b| if self.rng.chance(1, 4) { b.saturating_sub(self.rng.below(4)) } else { b })
+            .unwrap_or(0)
+            .min(pn);
+        let mut payload = [0u8; PAYLOAD_LEN];
+        prf_fill(mix(e as u64, 0xFA71), pn * PAYLOAD_LEN as u64, &mut payload);
+        let mut buf = [0u8; 160];
+        let total = buf.len();
+        let sealed_before = self.log.lock().unwrap().sealed.len();
+        let outcome: Result<usize, &'static str> = {
+            let ep = &mut self.eps[e];
+            let r = ep
+                .ks
+                .encrypt_packet(EncoderBuffer::new(&mut buf), |buffer, key, phase| {
+                    Short {
+                        spin_bit: SpinBit::Zero,
+                        key_phase: phase,
+                        destination_connection_id: &DCID[..],
+                        packet_number: pn_obj(pn),
+                        payload: &payload[..],
+                    }
+                    .encode_packet(key, &THeaderKey, pn_obj(peer_has), None, buffer)
+                });
+            match r {
+                Ok((_protected, remaining)) => Ok(total - remaining.capacity()),
+                Err(PacketEncodingError::AeadLimitReached(_)) => Err("limit"),
+                Err(PacketEncodingError::PacketNumberTruncationError(_)) => Err("truncation"),
+                Err(PacketEncodingError::InsufficientSpace(_)) => Err("space"),
+                Err(PacketEncodingError::EmptyPayload(_)) => Err("empty"),
+            }
+        };
+        match outcome {
+            Ok(len) => {
+                let (owner, gen, lpn) = {
+                    let l = self.log.lock().unwrap();
+                    if l.sealed.len() != sealed_before + 1 {
+                        drop(l);
+                        panic!("harness: expected exactly one seal per encrypt_packet");
+                    }
+                    *l.sealed.last().unwrap()
+                };
+                assert!(owner == self.eps[e].owner && lpn == pn, "harness: seal log mismatch");
+                self.st.sealed += 1;
+                self.st.max_gen = self.st.max_gen.max(gen);
+                let (count, last, rx_gen) = {
+                    let ep = &mut self.eps[e];
+                    ep.next_pn += 1;
+                    let c = ep.sealed.entry(gen).or_insert(0);
+                    *c += 1;
+                    let last = ep.last_gen_sealed;
+                    ep.last_gen_sealed = Some(last.map_or(gen, |l| l.max(gen)));
+                    (*c, last, ep.rx_gen)
+                };
+                self.st.max_sealed_per_gen = self.st.max_sealed_per_gen.max(count);
+                self.log(format!(
+                    "{} seals pn={pn} gen={gen} (#{count} of limit {}) basis={peer_has} len={len}",
+                    Self::name(e),
+                    self.conf_limit
+                ));
+                // K1
+                if count > self.conf_limit {
+                    self.set_fail(
+                        "confidentiality_limit_exceeded",
+                        format!(
+                            "{} sealed {count} packets with key generation {gen}; confidentiality limit {} (update window {})",
+                            Self::name(e), self.conf_limit, self.window
+                        ),
+                    );
+                }
+                // K3
+                if let Some(l) = last {
+                    if gen < l {
+                        self.set_fail(
+                            "generation_regression",
+                            format!(
+                                "{} sealed pn {pn} with key generation {gen} after having sealed a lower packet number with generation {l} (RFC 9001 6.4)",
+                                Self::name(e)
+                            ),
+                        );
+                    }
+                }
+                if gen < rx_gen {
+                    self.set_fail(
+                        "send_keys_not_updated",
+                        format!(
+                            "{} sealed pn {pn} with generation {gen} although it already opened generation {rx_gen} from its peer (RFC 9001 6.2)",
+                            Self::name(e)
+                        ),
+                    );
+                }
+                if gen > rx_gen + 1 {
+                    self.set_fail(
+                        "update_before_confirmation",
+                        format!(
+                            "{} sealed with generation {gen} while the peer has only confirmed generation {rx_gen} (RFC 9001 6.1)",
+                            Self::name(e)
+                        ),
+                    );
+                }
+                if last.is_some_and(|l| gen > l)
+                    && self.eps[1 - e].last_gen_sealed.is_some_and(|g| g >= gen)
+                    && rx_gen < gen
+                {
+                    self.st.shape |= shape::BOTH_INITIATE;
+                }
+                let seq = self.seq;
+                self.seq += 1;
+                self.chan.push(Wire {
+                    from: e,
+                    pn,
+                    gen,
+                    bytes: buf[..len].to_vec(),
+                    seq,
+                });
+            }
+            Err("limit") => {
+                self.st.refusals += 1;
+                self.st.shape |= shape::REFUSAL;
+                let ep = &self.eps[e];
+                let send_gen = ep.last_gen_sealed.unwrap_or(0);
+                let used = ep.sealed.get(&send_gen).copied().unwrap_or(0);
+                let rx_gen_e = ep.rx_gen;
+                // RFC 9001 6.5: for about one PTO after an update the next keys need not exist yet,
+                // so no further update can be initiated: refusing meanwhile is legitimate
+                let timer_e = ep.timer_state;
+                let msg = format!(
+                    "{} refused to seal pn {pn}: send generation {send_gen} used {used}/{} , peer-confirmed generation {}",
+                    Self::name(e), self.conf_limit, ep.rx_gen
+                );
+                self.log(msg.clone());
+                // K2
+                if used < self.conf_limit {
+                    self.set_fail("refused_before_limit", msg);
+                } else if rx_gen_e >= send_gen && timer_e == TimerState::Settled {
+                    self.set_fail(
+                        "no_update_before_limit",
+                        format!("{msg}: the current generation is confirmed, a key update was possible (RFC 9001 6.6)"),
+                    );
+                }
+            }
+            Err(other) => panic!("harness: encode_packet failed: {other}"),
+        }
+    }
+
+    /// largest packet number of `e` that its peer has opened
+    fn chan_basis(&self, e: usize) -> Option<u64> {
+        self.eps[1 - e].largest_rx
+    }
+
+    // ---- open --------------------------------------------------------------------------
+
+    /// feeds `bytes` to endpoint `to`; returns (opened?, announced generation, error is aead limit,
+    /// expanded packet number)
+    fn feed(&mut self, to: usize, bytes: &[u8]) -> (Result<Option<u16>, bool>, Option<u64>, u64) {
+        let mut copy = bytes.to_vec();
+        let deadline_us = self.now_us + self.pto_us;
+        let ep = &mut self.eps[to];
+        let basis = pn_obj(ep.largest_rx.unwrap_or(0));
+        let info = ConnectionInfo::new(&self.remote);
+        let buffer = DecoderBufferMut::new(&mut copy);
+        let (packet, _rest) = match ProtectedPacket::decode(buffer, &info, &DCID.len()) {
+            Ok(v) => v,
+            Err(_) => panic!("harness: packet does not decode"),
+        };
+        let ProtectedPacket::Short(short) = packet else {
+            panic!("harness: not a short packet")
+        };
+        let enc = match short.unprotect(&THeaderKey, basis) {
+            Ok(v) => v,
+            Err(_) => panic!("harness: unprotect failed"),
+        };
+        let pn = enc.packet_number.as_u64();
+        match ep.ks.decrypt_packet(enc, basis, ts(deadline_us)) {
+            Ok((_clear, generation)) => (Ok(generation), Some(pn), deadline_us),
+            Err(e) => (Err(is_aead_limit(&e)), Some(pn), deadline_us),
+        }
+    }
+
+    fn account_failure(&mut self, to: usize, was_aead_limit: bool, what: &str) {
+        let n = {
+            let ep = &mut self.eps[to];
+            ep.fails += 1;
+            ep.fails
+        };
+        // K6
+        if n < self.integ_limit && was_aead_limit {
+            self.set_fail(
+                "aead_limit_reached_early",
+                format!(
+                    "{} returned AEAD_LIMIT_REACHED at failed authentication #{n}; integrity limit {} ({what})",
+                    Self::name(to), self.integ_limit
+                ),
+            );
+        }
+        if n >= self.integ_limit && !was_aead_limit {
+            self.set_fail(
+                "aead_limit_not_enforced",
+                format!(
+                    "{} has {n} failed authentications (integrity limit {}) but decrypt_packet did not return AEAD_LIMIT_REACHED ({what})",
+                    Self::name(to), self.integ_limit
+                ),
+            );
+        }
+        if n >= self.integ_limit && !self.eps[to].limit_hit {
+            self.eps[to].limit_hit = true;
+            self.st.integrity_closes += 1;
+            self.st.shape |= shape::INTEGRITY_LIMIT;
+            self.log(format!("{} reached the integrity limit", Self::name(to)));
+        }
+    }
+
+    fn op_deliver(&mut self) {
+        if self.chan.is_empty() {
+            return;
+        }
+        // pick: mostly the oldest, sometimes any (reordering)
+        let idx = if self.rng.below(100) < self.reorder_pct {
+            self.st.shape |= shape::REORDER;
+            self.st.reordered += 1;
+            self.rng.below(self.chan.len() as u64) as usize
+        } else {
+            0
+        };
+        let r = self.rng.below(100);
+        if r < self.drop_pct {
+            self.chan.remove(idx);
+            self.st.dropped += 1;
+            self.st.shape |= shape::DROP;
+            return;
+        }
+        let duplicate = self.rng.chance(1, 10);
+        let w = if duplicate {
+            self.st.duplicated += 1;
+            self.st.shape |= shape::DUPLICATE;
+            let w = &self.chan[idx];
+            Wire {
+                from: w.from,
+                pn: w.pn,
+                gen: w.gen,
+                bytes: w.bytes.clone(),
+                seq: w.seq,
+            }
+        } else {
+            self.chan.remove(idx)
+        };
+        let to = 1 - w.from;
+        // packets too far behind cannot be expanded to the right packet number any more; a real
+        // receiver would fail to open them for that reason alone, which says nothing about keys
+        if let Some(l) = self.eps[to].largest_rx {
+            if w.pn + 48 < l {
+                self.st.dropped += 1;
+                return;
+            }
+        }
+        if self.avoid_known
+            && w.gen + 1 == self.eps[to].rx_gen
+            && self.eps[to].timer_state != TimerState::Settled
+        {
+            // steer away from known finding F1 (see README): a previous-generation packet that
+            // arrives while the old keys are retained is treated as lost instead
+            self.st.suppressed_old_gen += 1;
+            return;
+        }
+        self.deliver_genuine(to, &w);
+    }
+
+    fn deliver_genuine(&mut self, to: usize, w: &Wire) {
+        let rx_before = self.eps[to].rx_gen;
+        let timer_before = self.eps[to].timer_state;
+        let closed_before = self.eps[to].limit_hit;
+        let (res, pn, deadline_us) = self.feed(to, &w.bytes);
+        self.st.delivered += 1;
+        if pn != Some(w.pn) {
+            panic!("harness: packet number expanded to {pn:?}, sent {}", w.pn);
+        }
+        let g = w.gen;
+        // K4: what RFC 9001 requires of the receiver for this packet
+        #[derive(PartialEq, Debug)]
+        enum Must {
+            Open,
+            Either,
+        }
+        let (must, class) = if g == rx_before {
+            (Must::Open, "current")
+        } else if g == rx_before + 1 {
+            match timer_before {
+                TimerState::Settled => (Must::Open, "next"),
+                _ => {
+                    self.st.next_gen_in_deferral += 1;
+                    self.st.shape |= shape::NEXT_GEN_IN_DEFERRAL;
+                    (Must::Either, "next-during-deferral")
+                }
+            }
+        } else if g + 1 == rx_before {
+            match timer_before {
+                TimerState::Retaining => {
+                    self.st.old_gen_in_retention += 1;
+                    self.st.shape |= shape::OLD_GEN_IN_RETENTION;
+                    (Must::Open, "previous-retained")
+                }
+                TimerState::Unknown => {
+                    self.st.old_gen_band += 1;
+                    (Must::Either, "previous-band")
+                }
+                TimerState::Settled => {
+                    self.st.old_gen_after_discard += 1;
+                    self.st.shape |= shape::OLD_GEN_AFTER_DISCARD;
+                    (Must::Either, "previous-discarded")
+                }
+            }
+        } else {
+            self.st.far_gen += 1;
+            self.st.shape |= shape::FAR_GEN;
+            (Must::Either, "far")
+        };
+        self.log(format!(
+            "deliver {}->{} pn={} gen={g} [{class}] rx_gen={rx_before} timer={timer_before:?} -> {res:?}",
+            Self::name(w.from),
+            Self::name(to),
+            w.pn
+        ));
+        match res {
+            Ok(announced) => {
+                self.st.opened += 1;
+                if closed_before {
+                    // "not process any more packets" is the connection's job (it closes); the KeySet
+                    // itself keeps no latch.  Observed, not judged, at component level.
+                    self.st.post_limit_genuine_accepted += 1;
+                    self.st.shape |= shape::POST_LIMIT_GENUINE_ACCEPTED;
+                }
+                // the key that opened it must be of the packet's generation
+                let opened_with = self
+                    .log
+                    .lock()
+                    .unwrap()
+                    .opened
+                    .last()
+                    .copied()
+                    .expect("open logged");
+                if !(opened_with.3 && opened_with.1 == g && opened_with.2 == w.pn) {
+                    self.set_fail(
+                        "opened_with_wrong_generation",
+                        format!("packet pn {} gen {g} reported open, key log says {opened_with:?}", w.pn),
+                    );
+                }
+                // K5
+                let expect_update = g > rx_before;
+                match (expect_update, announced) {
+                    (true, Some(n)) if n as u32 == (g & 0xffff) => {}
+                    (false, None) => {}
+                    _ => {
+                        self.set_fail(
+                            if expect_update {
+                                "key_update_not_announced"
+                            } else {
+                                "spurious_key_update"
+                            },
+                            format!(
+                                "{} opened a genuine packet of generation {g} (pn {}) while its receive generation was {rx_before}; decrypt_packet announced {announced:?}",
+                                Self::name(to), w.pn
+                            ),
+                        );
+                    }
+                }
+                let ep = &mut self.eps[to];
+                ep.largest_rx = Some(ep.largest_rx.map_or(w.pn, |l| l.max(w.pn)));
+                if g > rx_before {
+                    ep.rx_gen = g;
+                    ep.retain_deadline_us = Some(deadline_us);
+                    ep.timer_state = TimerState::Retaining;
+                    self.st.updates += 1;
+                    self.st.shape |= shape::UPDATE;
+                    if self.st.updates >= 6 {
+                        self.st.shape |= shape::MANY_UPDATES;
+                    }
+                }
+            }
+            Err(aead) => {
+                if must == Must::Open {
+                    self.set_fail(
+                        "genuine_packet_rejected",
+                        format!(
+                            "{} failed to open a genuine packet pn {} of generation {g} ({class}); its receive generation is {rx_before}, timer state {timer_before:?}",
+                            Self::name(to), w.pn
+                        ),
+                    );
+                }
+                self.account_failure(to, aead, "genuine packet outside the retained generations");
+            }
+        }
+    }
+
+    fn op_forge(&mut self) {
+        if self.chan.is_empty() {
+            return;
+        }
+        let idx = self.rng.below(self.chan.len() as u64) as usize;
+        let to = 1 - self.chan[idx].from;
+        let mut bytes = self.chan[idx].bytes.clone();
+        let (pn, gen) = (self.chan[idx].pn, self.chan[idx].gen);
+        let n = bytes.len();
+        let kind = self.rng.below(4);
+        match kind {
+            0 => {
+                // apparent key update: flip the (header protected) key phase bit
+                bytes[0] ^= 0x04;
+                self.st.shape |= shape::PHASE_FLIP_FORGERY;
+            }
+            1 => bytes[n - 1 - self.rng.below(8) as usize] ^= 1 << self.rng.below(8), // MAC
+            2 => bytes[n - 9 - self.rng.below(4) as usize] ^= 0x01, // tagged packet number
+            _ => bytes[n - TAG_LEN - 1 - self.rng.below(8) as usize] ^= 0x80, // ciphertext tail
+        }
+        self.st.forgeries += 1;
+        self.st.shape |= shape::FORGERY;
+        let (res, _pn, _dl) = self.feed(to, &bytes);
+        self.log(format!(
+            "forgery(kind {kind}) of pn={pn} gen={gen} -> {} : {res:?}",
+            Self::name(to)
+        ));
+        match res {
+            Ok(_) => self.set_fail(
+                "forgery_accepted",
+                format!("{} opened a forged packet (kind {kind}, from pn {pn})", Self::name(to)),
+            ),
+            Err(aead) => self.account_failure(to, aead, "forged packet"),
+        }
+    }
+
+    // ---- time --------------------------------------------------------------------------
+
+    fn op_time(&mut self) {
+        let dt = match self.rng.below(6) {
+            0 => self.rng.range(0, 200),
+            1..=3 => self.rng.range(200, self.pto_us / 2 + 201),
+            4 => self.rng.range(self.pto_us / 2, self.pto_us * 2),
+            _ => self.rng.range(self.pto_us, self.pto_us * 5),
+        };
+        self.now_us += dt;
+        // timers fire at (or, late, after) their deadline; sometimes an endpoint is also polled
+        // although nothing is due
+        for e in 0..2 {
+            let due = self.eps[e]
+                .ks
+                .next_expiration()
+                .is_some_and(|t| t <= ts(self.now_us));
+            if due || self.rng.chance(1, 5) {
+                self.on_timeout(e);
+            }
+        }
+    }
+
+    fn on_timeout(&mut self, e: usize) {
+        let now = self.now_us;
+        let derivs = self.log.lock().unwrap().derivations;
+        self.eps[e].ks.on_timeout(ts(now));
+        let derived = self.log.lock().unwrap().derivations != derivs;
+        self.st.timeouts += 1;
+        self.st.shape |= shape::TIMER;
+        let ep = &mut self.eps[e];
+        if let Some(d) = ep.retain_deadline_us {
+            if ep.timer_state != TimerState::Settled {
+                if now >= d {
+                    ep.timer_state = TimerState::Settled;
+                    ep.retain_deadline_us = None;
+                } else if now + 1000 > d {
+                    // Timestamp::has_elapsed: deadlines < 1 ms ahead count as due
+                    ep.timer_state = TimerState::Unknown;
+                }
+            }
+        }
+        let state = ep.timer_state;
+        self.log(format!(
+            "{} on_timeout derived_next_keys={derived} -> {state:?}",
+            Self::name(e)
+        ));
+        // old keys must not be dropped before the deadline handed to decrypt_packet
+        if derived && state == TimerState::Retaining {
+            self.set_fail(
+                "old_keys_discarded_early",
+                format!(
+                    "{} derived the next keys (dropping the old ones) before the retention deadline",
+                    Self::name(e)
+                ),
+            );
+        }
+    }
+
+    fn step(&mut self) {
+        self.st.steps += 1;
+        let r = self.rng.below(100);
+        if r < self.forge_pct {
+            self.op_forge();
+        } else {
+            match self.rng.below(10) {
+                0..=3 => {
+                    let e = self.rng.below(2) as usize;
+                    let burst = self.rng.range(1, 4);
+                    for _ in 0..burst {
+                        if self.fail.is_none() {
+                            self.op_send(e);
+                        }
+                    }
+                }
+                4..=7 => self.op_deliver(),
+                _ => self.op_time(),
+            }
+        }
+        if self.chan.len() > 96 {
+            // bounded queue: the oldest packet is lost
+            self.chan.remove(0);
+            self.st.dropped += 1;
+        }
+        if self.eps[0].limit_hit && self.eps[1].limit_hit {
+            self.done = true;
+        }
+    }
+}
+
+struct Outcome {
+    fail: Option<Fail>,
+    st: Stats,
+    trace: Vec<String>,
+    conf_limit: u64,
+    integ_limit: u64,
+    window: u64,
+}
+
+fn drive(rng: Rng, steps: u64, miri: bool, verbose: bool, avoid_known: bool) -> Outcome {
+    let mut h = Hist::new(rng, miri, verbose, avoid_known);
+    if verbose {
+        eprintln!(
+            "  confidentiality limit {} update window {} integrity limit {} pto {}us forge {}% drop {}% reorder {}%",
+            h.conf_limit, h.window, h.integ_limit, h.pto_us, h.forge_pct, h.drop_pct, h.reorder_pct
+        );
+    }
+    let mut after_close = 0;
+    while h.st.steps < steps && h.fail.is_none() && !h.done {
+        h.step();
+        if h.eps[0].limit_hit || h.eps[1].limit_hit {
+            // a connection that hit the integrity limit closes: a few more deliveries probe that
+            // the error is sticky for failing packets, then the history ends
+            after_close += 1;
+            if after_close > 12 {
+                break;
+            }
+        }
+    }
+    Outcome {
+        fail: h.fail,
+        st: h.st,
+        trace: h.trace,
+        conf_limit: h.conf_limit,
+        integ_limit: h.integ_limit,
+        window: h.window,
+    }
+}
+
+pub fn run(p: &Params, sum: &mut Summary) {
+    let range: Box<dyn Iterator<Item = u64>> = match p.only {
+        Some(i) => Box::new(i..=i),
+        None => Box::new(0..p.iters),
+    };
+    let mut total = 0u64;
+    for index in range {
+        let mut rng = Rng::new(mix(p.seed ^ 0xC15C_15C1, index));
+        let steps = if p.miri {
+            rng.range(12, 40)
+        } else {
+            rng.range(200, 2000)
+        };
+        if p.verbose {
+            eprintln!("history {index}: steps={steps}");
+        }
+        let (miri, verbose, avoid) = (p.miri, p.verbose, p.avoid_known);
+        let res = guarded(move || drive(rng, steps, miri, verbose, avoid));
+        sum.evaluations += 1;
+        let replay = json!({"check": "keys", "seed": p.seed, "history": index, "mode": p.mode(), "steps": steps});
+        match res {
+            Err(Caught::Library { loc, msg }) => sum.violation(Violation {
+                property: "C15".into(),
+                signature: format!("keys.{}", panic_sig(&loc, &msg)),
+                what: format!("library panic at {loc}: {msg}"),
+                replay,
+            }),
+            Err(Caught::Harness { loc, msg }) => sum
+                .inconclusive
+                .push(format!("keys history {index}: harness panic at {loc}: {msg}")),
+            Ok(o) => {
+                let s = &o.st;
+                total += s.steps;
+                for (k, v) in [
+                    ("steps", s.steps),
+                    ("packets_sealed", s.sealed),
+                    ("packets_delivered", s.delivered),
+                    ("packets_opened", s.opened),
+                    ("packets_dropped", s.dropped),
+                    ("packets_duplicated", s.duplicated),
+                    ("deliveries_out_of_order", s.reordered),
+                    ("forgeries_injected", s.forgeries),
+                    ("key_updates_performed", s.updates),
+                    ("updates_overlapping_reordering(previous_gen_opened_during_retention)", s.old_gen_in_retention),
+                    ("previous_gen_after_discard", s.old_gen_after_discard),
+                    ("previous_gen_inside_1ms_band", s.old_gen_band),
+                    ("next_gen_during_deferral_window", s.next_gen_in_deferral),
+                    ("generation_two_or_more_away", s.far_gen),
+                    ("seal_refusals(aead_limit)", s.refusals),
+                    ("integrity_limit_closes", s.integrity_closes),
+                    ("on_timeout_calls", s.timeouts),
+                    ("genuine_opened_after_integrity_limit(observed_only)", s.post_limit_genuine_accepted),
+                    ("avoid_known.previous_gen_packets_withheld_during_retention", s.suppressed_old_gen),
+                    ("avoid_known.sends_withheld_in_unconfirmed_update_window", s.suppressed_sends),
+                ] {
+                    sum.count(k, v);
+                }
+                sum.max("max_key_generation", s.max_gen as i64);
+                sum.max("max_sealed_with_one_generation", s.max_sealed_per_gen as i64);
+                sum.min(
+                    "min_headroom_to_confidentiality_limit",
+                    o.conf_limit as i64 - s.max_sealed_per_gen as i64,
+                );
+                let nontrivial = s.updates >= 1 && s.delivered >= 10;
+                if nontrivial {
+                    sum.signatures.insert(mix(0xC15, s.shape as u64));
+                } else {
+                    sum.trivial += 1;
+                }
+                if sum.samples.len() < 4 && (nontrivial || p.miri) {
+                    sum.sample(json!({"history": index, "steps": s.steps,
+                        "confidentiality_limit": o.conf_limit, "key_update_window": o.window,
+                        "integrity_limit": o.integ_limit, "updates": s.updates,
+                        "shape_bits": format!("{:#x}", s.shape), "last_ops": o.trace}));
+                }
+                if let Some(f) = o.fail {
+                    let mut replay = replay;
+                    replay["witness"] = json!(o.trace);
+                    replay["confidentiality_limit"] = json!(o.conf_limit);
+                    replay["key_update_window"] = json!(o.window);
+                    replay["integrity_limit"] = json!(o.integ_limit);
+                    sum.violation(Violation {
+                        property: "C15".into(),
+                        signature: f.sig,
+                        what: f.what,
+                        replay,
+                    });
+                }
+            }
+        }
+    }
+    if total == 0 && p.only.is_none() {
+        sum.inconclusive.push("keys: no step was run".into());
+    }
+}
